@@ -123,7 +123,9 @@ def arg_shapes(tier):
                 continue
             params = ", ".join(fmt % names[i] for i, (_, fmt) in enumerate(combo))
             tags = ["args:" + ",".join(c[0] for c in combo)]
-            for ctx, src in (("fun", "def f(%s) => print(1)\n" % params), ("method", "class C\n    def m(self, %s) => print(1)\n" % params)):
+            for ctx, src in (("fun", "def f(%s) => print(1)\n" % params), ("method", "class C\n    def m(self, %s) => print(1)\n" % params),
+                             ("lambda-init", "def lf := \\%s => 1\n" % params), ("lambda-arg", "def ap(g: Int -> Int) -> Int => g(1)\nprint(ap(\\%s => 2))\n" % params),
+                             ("lambda-in-function", "def mk() =>\n    def lf := \\%s => 1\n    print(3)\nmk()\n" % params)):
                 n += 1
                 yield {"id": "as%d" % n, "family": "c02.arg-shapes", "src": src, "tags": tags + ["ctx:" + ctx]}
     for params in ["def a: Int", "def a: Int, b: Int", "a: Int, def b: Int := 1", "def a: Int := 1, def b: Int", "vararg a: Int", "def a: Int, vararg b: Int", "def fin a: Int"]:
